@@ -17,10 +17,19 @@ fn dispatch(id: &str, tier: Tier) -> i32 {
     match id {
         "C01" => props::c01::check("C01", tier),
         "C02" => props::c01::check("C02", tier),
+        "C05" => props::hist2::check_c05(tier),
+        "C09" => props::hist2::check_c09(tier),
+        "C10" => props::hist2::check_c10(tier),
+        "C11" => props::hist2::check_c11(tier),
+        "C29" => props::hist2::check_c29(tier),
         "C06" => props::hist::check_c06(tier),
         "C07" => props::hist::check_c07(tier),
         "C08" => props::hist::check_c08(tier),
+        "C14" => props::c14::check(tier),
         "C24" => props::c24::check(tier),
+        "C25" => props::c25::check(tier),
+        "C26" => props::c26::check(tier),
+        "C27" => props::c27::check(tier),
         _ => {
             out(&format!("MACHINERY-ERROR: no check registered for {}", id));
             2
@@ -29,11 +38,15 @@ fn dispatch(id: &str, tier: Tier) -> i32 {
 }
 
 fn replay_dispatch(id: &str, family: &str, case: &serde_json::Value) -> Option<Vec<Mismatch>> {
-    let _ = family;
     match id {
         "C01" | "C02" => Some(props::c01::replay(id, case)),
         "C06" | "C07" | "C08" => Some(props::hist::replay(id, case)),
+        "C05" | "C09" | "C10" | "C11" | "C29" => Some(props::hist2::replay(id, case)),
         "C24" => Some(props::c24::replay(case)),
+        "C14" => Some(props::c14::replay(family, case)),
+        "C25" => Some(props::c25::replay(family, case)),
+        "C26" => Some(props::c26::replay(family, case)),
+        "C27" => Some(props::c27::replay(family, case)),
         _ => None,
     }
 }
